@@ -310,10 +310,11 @@ class Ctx:
             with open(path, "w") as f:
                 f.write("From Coq Require Import ZArith List Bool QArith.\n")
                 f.write(imports + "\nImport ListNotations.\nOpen Scope Z_scope.\n" + preamble + "\n")
-                f.write("Definition cases := [\n  ")
+                # the cases are an argument of bad_indices so that their type is inferred from check_fn's domain
+                # (a chunk in which some list component is [] in every case has no inferable type on its own)
+                f.write(f"Eval vm_compute in (V.Harness.Run.bad_indices ({check_fn}) [\n  ")
                 f.write(";\n  ".join(cases[ci:ci + chunk]))
-                f.write("\n].\n")
-                f.write(f"Eval vm_compute in (V.Harness.Run.bad_indices ({check_fn}) cases).\n")
+                f.write("\n]).\n")
             files.append((ci, path))
 
         def run(item):
